@@ -416,7 +416,57 @@ def parse_result_file(raw):
     return header, rows
 
 
-def fasta_for_tables(tables, seed, subset_p=0.2, pep_per_prot=3):
+def make_isobaric(tables, seed):
+    """Rename peptides (consistently, in every column that spells them) so that every decoy peptide is a rearrangement of
+    a target peptide's residues and many target peptides come in pairs of equal composition - what a target-only protein
+    database needs: mokapot then pairs each decoy peptide with *some* target peptide of the same composition."""
+    rng = random.Random(f"iso|{seed}")
+    tps, dps = [], []
+    for t in tables:
+        pi = t["columns"].index("Peptide")
+        for r, is_t in zip(t["rows"], datagen.targets_of(t)):
+            lst = tps if is_t else dps
+            if r[pi] not in lst:
+                lst.append(r[pi])
+    used = set(tps) | set(dps)
+
+    def rearranged(p):
+        body = list(p[:-1])
+        for _ in range(60):
+            rng.shuffle(body)
+            q = "".join(body) + p[-1]
+            if q not in used:
+                used.add(q)
+                return q
+        return None
+
+    ren = {}
+    for k in range(0, len(tps) - 1, 2):
+        if rng.random() < 0.7:
+            q = rearranged(tps[k])
+            if q:
+                ren[tps[k + 1]] = q
+    final_t = [ren.get(p, p) for p in tps]
+    for i, d in enumerate(dps):
+        q = rearranged(final_t[(2 * (i // 2)) % len(final_t)])
+        if q:
+            ren[d] = q
+    out = []
+    for t in tables:
+        t = {"columns": list(t["columns"]), "rows": [list(r) for r in t["rows"]], "meta": t["meta"]}
+        cols = t["columns"]
+        pi = cols.index("Peptide")
+        sc = [cols.index(c) for c in ("Peptide", "ModifiedPeptide", "Precursor") if c in cols]
+        for r in t["rows"]:
+            old = r[pi]
+            if old in ren:
+                for j in sc:
+                    r[j] = r[j].replace(old, ren[old])
+        out.append(t)
+    return out
+
+
+def fasta_for_tables(tables, seed, subset_p=0.2, pep_per_prot=3, with_decoys=True):
     """FASTA entries (name, sequence) whose tryptic digest yields exactly the
     tables' peptides: targets in P###, decoys in decoy_P###; a few peptides are
     shared between two proteins, a few proteins are subsets / copies of others."""
@@ -449,6 +499,7 @@ def fasta_for_tables(tables, seed, subset_p=0.2, pep_per_prot=3):
             dprots[f"decoy_S{k:03d}"] = list(dprots["decoy_" + n][: max(1, len(sub) - 1)])
             k += 1
     entries = [(n, "".join(dict.fromkeys(v))) for n, v in prots.items()]
-    entries += [(n, "".join(dict.fromkeys(v))) for n, v in dprots.items()]
+    if with_decoys:
+        entries += [(n, "".join(dict.fromkeys(v))) for n, v in dprots.items()]
     rng.shuffle(entries)
     return entries
